@@ -10,6 +10,7 @@ import (
 	"io"
 	"net/netip"
 	"slices"
+	"strconv"
 	"strings"
 	"sync"
 	"testing"
@@ -461,6 +462,37 @@ func TestOverlong(t *testing.T) {
 			vp.Fail(t, "c08.overlong", before, fmt.Errorf("over-long line: lines before it: %s", d))
 		}
 	}
+}
+
+// TestLongLineCallerBuffer: a caller that expects lines above 64 KiB hands
+// Parse a buffer with enough capacity (bufio.Scanner takes its limit from the
+// capacity).  Such a well-formed line and the lines after it are delivered
+// like any others.
+func TestLongLineCallerBuffer(t *testing.T) {
+	for _, tc := range []struct{ bufLen, bufCap, names int }{
+		{0, 128 << 10, 7000}, {4096, 128 << 10, 7000}, {0, 256 << 10, 12000}, {64 << 10, 96 << 10, 6600}, {1, 1 << 20, 7000},
+	} {
+		var sb strings.Builder
+		sb.WriteString("1.1.1.1 first\n1.2.3.4")
+		for i := 0; i < tc.names; i++ {
+			sb.WriteString(" h" + strconv.Itoa(i) + ".lan")
+		}
+		sb.WriteString("\n2.2.2.2 after\nbad line\n::1 last\n")
+		data := sb.String()
+		rs := &recSet{}
+		vp.Eval("c08.longline")
+		err := hostsfile.Parse(recHandleSet{rs}, strings.NewReader(data), make([]byte, tc.bufLen, tc.bufCap))
+		want := expected([]byte(data), "")
+		if err != nil {
+			vp.Fail(t, "c08.longline", tc, fmt.Errorf("a well-formed line of %d bytes with a caller buffer of length %d and capacity %d: Parse returned %v", len(data)-60, tc.bufLen, tc.bufCap, err))
+			continue
+		}
+		if d := diffEvents(rs.events, want); d != "" {
+			vp.Fail(t, "c08.longline", tc, fmt.Errorf("a well-formed line of about %d bytes with a caller buffer of length %d and capacity %d: %s", len(data)-60, tc.bufLen, tc.bufCap, d))
+		}
+	}
+	vp.Class("longline:line-above-64KiB-within-the-caller-buffer's-capacity")
+	vp.NonTrivialN("c08.longline", 5)
 }
 
 // ---------------------------------------------------------------------------
